@@ -17,7 +17,7 @@ func init() {
 		Run: runC21,
 		Explanation: "Static decision of the hard-link plumbing: (1) FIELDS-clone: every filer.Entry literal that copies two or more fields from another entry copies all of Attr, Extended, Chunks, HardLinkId, HardLinkCounter, Content, Remote (module-wide); " +
 			"(2) the store wrapper's InsertEntry/UpdateEntry run handleUpdateToHardLinks before the store call and stop on its error; DeleteEntry/DeleteOneEntry decrement through DeleteHardLink before deleting a name that carries a link id; handleUpdateToHardLinks releases the *existing* entry's identity when a name is overwritten by another identity; " +
-			"(3) every wrapper read path (FindEntry, ListDirectoryEntries, ListDirectoryPrefixedEntries native and fallback) hands entries to the caller only through maybeReadHardLink + AfterEntryDeserialization; (4) DeleteHardLink removes the shared record only on counter <= 0 and rewrites it otherwise. Counter arithmetic over histories is not decided.",
+			"(3) every wrapper read path (FindEntry, ListDirectoryEntries, ListDirectoryPrefixedEntries native and fallback) hands entries to the caller only through maybeReadHardLink + AfterEntryDeserialization; (4) DeleteHardLink removes the shared record only on counter <= 0 and rewrites it otherwise. Counter arithmetic over histories is not decided. Also decided: identities collected in sub-directories reach the enclosing level of a recursive delete, each collected occurrence is released once, and a plain entry written over a hard-linked name still releases the displaced identity.",
 		Assumptions: []string{"hard-link identity = Entry.HardLinkId; the KV record is the shared state"},
 		Trusted:     baseTrusted,
 	})
